@@ -77,7 +77,11 @@ class C20(Lab):
         try:
             r = self.crc7(data)
         except Exception as e:  # noqa
-            raise exc_violation(self.pid, e, f"crc7({data.hex()})")
+            try:
+                shown = bytes(list(data)).hex() if not isinstance(data, (bytes, bytearray)) else bytes(data).hex()
+            except Exception:  # noqa - e.g. a consumed one-shot iterable
+                shown = repr(data)
+            raise exc_violation(self.pid, e, f"crc7(<{type(data).__name__}> {shown})")
         return r
 
     # ---- generators -----------------------------------------------------
